@@ -1413,3 +1413,8 @@ def check(run):
     # an immutable class default (a mutable class-level default is one dict shared by every request without a query string)
     run.rule('R13', r13_params_per_request, 'req.params is per request: _params bound on every constructor path or an immutable class '
              'default, both stacks (shared with C06 R8)', floor=2)
+    # the json getter turns every failure of the JSON handler into the documented 400-class error; that rests on
+    # the handler mapping every loads() failure to a media error (shared with C12 R2)
+    from . import c12 as _c12
+
+    run.rule('R14', _c12._safe(_c12.r2_error_mapping), 'the JSON handler maps every loads() failure to the malformed-media error the json getter converts (shared with C12 R2)', floor=9)
